@@ -168,6 +168,8 @@ func init() {
 			b[1] = SliceV{Nil: true}
 			return nil
 		},
+		"strings.Clone":              func(ex *Exec, fr *frame, args []Val) Val { return args[0] },
+		"internal/stringslite.Clone": func(ex *Exec, fr *frame, args []Val) Val { return args[0] },
 		"fmt.Sprintf": inSprintf,
 		"fmt.Errorf":  inErrorf,
 		"fmt.Sprint":  inSprint,
